@@ -30,10 +30,54 @@ def snapshot(obj):
         return None
 
 
-def observer_failures(cls, buf, rng, rounds):
+def edit_nested_item(obj, depth=0):
+    """Edit, through its own public interface, one item that sits inside a vector of the object (a key share entry, a certificate,
+    a distinguished name: the caller holds a reference to it and may change it); True when an edit was made.  The enclosing
+    vector is not told, so whatever it caches about its items is stale afterwards - observers must still not write to it."""
+    import attr
+    if depth > 5 or obj is None or isinstance(obj, (type, str, bytes, bytearray, int, float)):
+        return False
+    items = getattr(obj, '_items', None)
+    if isinstance(items, list) and items and hasattr(obj, 'get_param'):
+        it = items[0]
+        if hasattr(it, '_items') and hasattr(it, 'append'):
+            try:
+                it.append(it[0] if len(it) else 0)
+                return True
+            except Exception:  # pylint: disable=broad-except
+                pass
+        if attr.has(type(it)):
+            for f in attr.fields(type(it)):
+                v = getattr(it, f.name, None)
+                if isinstance(v, (bytes, bytearray)) and len(v) > 0:
+                    try:
+                        object.__setattr__(it, f.name, type(v)(bytes(v) + bytes(v[:1])))
+                        return True
+                    except Exception:  # pylint: disable=broad-except
+                        pass
+            if edit_nested_item(it, depth + 1):
+                return True
+    if attr.has(type(obj)):
+        for f in attr.fields(type(obj)):
+            if f.name == '_items':
+                continue
+            try:
+                if edit_nested_item(getattr(obj, f.name), depth + 1):
+                    return True
+            except Exception:  # pylint: disable=broad-except
+                pass
+    return False
+
+
+def observer_failures(cls, buf, rng, rounds, edited=False):
     try:
         obj, _ = cls.parse_immutable(buf)
     except Exception:  # pylint: disable=broad-except
+        return
+    if not edited:
+        for obs, detail in observer_failures(cls, buf, rng, rounds, True):
+            yield obs, detail + ' (after an item of a nested vector had been edited in place)'
+    elif not edit_nested_item(obj):
         return
     snap = snapshot(obj)
     if snap is None or not rt.same(obj, snap):
